@@ -6,9 +6,9 @@
    model of the data writer over any list of events (API calls, ACKNACKs, matches, timer ticks,
    each with its time); svc_register / svc_unregister / svc_dispose / svc_lookup / svc_write are the
    five calls on a state.  `c28_ghost` computes, from the replies alone, the specification-level
-   sets: g_reg (instances registered by a successful register_instance or write and not
-   unregistered since), g_st1 (unregistered, not registered again), g_st2 (unknown instances for
-   which a write was refused with OutOfResources).  g_st1 / g_st2 are the two recorded findings. *)
+   state: g_reg (instances registered by a successful register_instance or write, at once or
+   after having been parked, and not unregistered since) and g_park (the instance of the write
+   that is parked at the moment). *)
 From DustDDS Require Import Base.Machine WriterHist.WriterModel WriterHist.WriterCorr
   WriterHist.WriterLimits WriterHist.C28Proofs.
 Open Scope Z_scope.
@@ -29,38 +29,35 @@ Theorem C28_register_returns_same_handle_forever :
     snd (svc_register (fst (run w1 evs)) k ts) = RHandle (Some k).
 Proof. exact register_forever. Qed.
 
-(* ---- lookup_instance returns the handle exactly for registered instances ---- *)
+(* ---- lookup_instance returns the handle exactly for registered instances, for every run ---- *)
 Theorem C28_lookup_iff_registered :
   forall keyed enabled q evs k,
     let w := fst (run (init keyed enabled q) evs) in
-    let g := c28_ghost keyed (mkG enabled [] [] []) (combine evs (snd (run (init keyed enabled q) evs))) in
+    let g := c28_ghost keyed (mkG enabled [] None) (combine evs (snd (run (init keyed enabled q) evs))) in
     let h := khandle keyed k in
-    g_en g = true -> mem h (g_st1 g) = false -> mem h (g_st2 g) = false ->
+    g_en g = true ->
     svc_lookup w k = RHandle (if mem h (g_reg g) then Some h else None).
 Proof. exact lookup_iff_registered. Qed.
-
-(* D31 confirmed: outside that hypothesis the statement is false *)
-Theorem C28_lookup_after_unregister_refuted :
-  exists keyed enabled q evs k,
-    let w := fst (run (init keyed enabled q) evs) in
-    let g := c28_ghost keyed (mkG enabled [] [] []) (combine evs (snd (run (init keyed enabled q) evs))) in
-    g_en g = true /\ mem (khandle keyed k) (g_reg g) = false /\
-    svc_lookup w k = RHandle (Some (khandle keyed k)) /\
-    snd (svc_unregister w k 0) = ROk /\ snd (svc_dispose w k 0) = ROk.
-Proof.
-  exists true, true, q_plain, [ev0 (ORegister 1 0); ev0 (OUnregister 1 0)], 1.
-  vm_compute. repeat split.
-Qed.
 
 (* ---- dispose / unregister of an unknown instance: BadParameter, nothing changes ---- *)
 Theorem C28_unknown_instance_bad_parameter :
   forall keyed enabled q evs k ts,
     let w := fst (run (init keyed enabled q) evs) in
-    let g := c28_ghost keyed (mkG enabled [] [] []) (combine evs (snd (run (init keyed enabled q) evs))) in
-    g_en g = true -> keyed = true ->
-    mem k (g_reg g) = false -> mem k (g_st1 g) = false -> mem k (g_st2 g) = false ->
+    let g := c28_ghost keyed (mkG enabled [] None) (combine evs (snd (run (init keyed enabled q) evs))) in
+    g_en g = true -> keyed = true -> mem k (g_reg g) = false ->
     svc_unregister w k ts = (w, RErr E_BAD_PARAMETER) /\ svc_dispose w k ts = (w, RErr E_BAD_PARAMETER).
 Proof. exact unknown_instance_bad_parameter. Qed.
+
+(* unregister_instance really unregisters (D31 repaired): in every reachable state, after a
+   successful unregister_instance the instance is unknown again *)
+Theorem C28_unregister_then_unknown :
+  forall keyed enabled q evs k ts w1,
+    let w := fst (run (init keyed enabled q) evs) in
+    svc_unregister w k ts = (w1, ROk) ->
+    forall ts', svc_lookup w1 k = RHandle None /\
+                svc_unregister w1 k ts' = (w1, RErr E_BAD_PARAMETER) /\
+                svc_dispose w1 k ts' = (w1, RErr E_BAD_PARAMETER).
+Proof. exact unregister_then_unknown. Qed.
 
 (* ---- instance operations on a keyless type: IllegalOperation, nothing changes ---- *)
 Theorem C28_keyless_illegal_operation :
@@ -93,18 +90,19 @@ Theorem C28_enabled_iff_enable_called :
     w_enabled w = (enabled || existsb (fun e => match e_op e with OEnable => true | _ => false end) evs).
 Proof. exact flags_after. Qed.
 
-(* ---- all sentences at once, for all sequences: every reply that breaks the contract
-        `c28_check` belongs to an operation in one of the two recorded classes ---- *)
-Theorem C28_contract_outside_known_classes :
+(* ---- all sentences at once: for every run, every reply honours the contract `c28_check`
+        (true in the list = a reply that breaks it) ---- *)
+Theorem C28_contract_for_all_runs :
   forall keyed enabled q evs,
-    ~ In 0%N (c28_walk keyed (mkG enabled [] [] []) (combine evs (snd (run (init keyed enabled q) evs)))).
-Proof. exact contract_outside_known_classes. Qed.
+    existsb (fun b => b)
+      (c28_walk keyed (mkG enabled [] None) (combine evs (snd (run (init keyed enabled q) evs)))) = false.
+Proof. exact contract_for_all_runs. Qed.
 
-Theorem C28_model_case_accepted_or_known :
+Theorem C28_model_case_accepted :
   forall keyed enabled q evs,
-    let c := mkWC keyed enabled q (combine evs (snd (run (init keyed enabled q) evs))) None None in
-    C28_oracle_ok c = true \/ C28_known c <> 0%N.
-Proof. exact oracle_or_known. Qed.
+    C28_oracle_ok (mkWC (qos_consistent q) keyed enabled q
+                        (combine evs (snd (run (init keyed enabled q) evs))) None None) = true.
+Proof. exact model_case_accepted. Qed.
 
 (* ---- writer half of C19 ---- *)
 (* a write is refused with OutOfResources exactly when it would exceed a limit *)
@@ -114,43 +112,22 @@ Theorem C28_write_out_of_resources_iff_limit_reached :
     if would_exceed (w_qos w) h (w_insts w) then E_OUT_OF_RESOURCES else 0.
 Proof. exact ent_write_refused_iff. Qed.
 
-(* a refused write adds no sample anywhere; on a known instance it changes nothing at all *)
+(* a refused write stores nothing: no sample, no sequence number, no instance record *)
 Theorem C28_write_out_of_resources_stores_no_sample :
   forall w h ts now slot w' c,
-    ent_write w h ts now slot = (w', c) -> c <> 0 ->
-    w_changes w' = w_changes w /\ w_last_sn w' = w_last_sn w /\
-    (forall x, samples_of x (w_insts w') = samples_of x (w_insts w)) /\
-    total_samples (w_insts w') = total_samples (w_insts w) /\
-    w_proxies w' = w_proxies w /\ w_pending w' = w_pending w /\
-    (has_inst h (w_insts w) = true -> w' = w).
+    ent_write w h ts now slot = (w', c) -> c <> 0 -> w' = w.
 Proof. exact ent_write_refused_stores_nothing. Qed.
 
 (* the same through the service call (KEEP_LAST replacement included), for every reachable
-   state of a writer with a consistent QoS *)
+   state of a writer with a consistent QoS: the state is unchanged *)
 Theorem C28_write_out_of_resources_stores_nothing :
   forall keyed enabled q evs now slot k ts w',
     qos_consistent q = true ->
     (forall m, q_mspi q = Some m -> 0 <= m <= i32_max) ->
     (forall ms, q_max_samples q = Some ms -> 0 <= ms) ->
     let w := fst (run (init keyed enabled q) evs) in
-    svc_write now w slot k ts = (w', RErr E_OUT_OF_RESOURCES) ->
-    w_changes w' = w_changes w /\ w_last_sn w' = w_last_sn w /\
-    (forall x, samples_of x (w_insts w') = samples_of x (w_insts w)) /\
-    w_pending w' = w_pending w /\
-    (has_inst (hof w k) (w_insts w) = true -> w' = w).
+    svc_write now w slot k ts = (w', RErr E_OUT_OF_RESOURCES) -> w' = w.
 Proof. exact svc_write_refused_after_trace. Qed.
-
-(* ... but a refused write on an unknown instance leaves its instance record behind *)
-Theorem C28_write_out_of_resources_registers_instance_refuted :
-  exists keyed enabled q evs now slot k ts,
-    let w := fst (run (init keyed enabled q) evs) in
-    let '(w', r) := svc_write now w slot k ts in
-    svc_lookup w k = RHandle None /\ r = RErr E_OUT_OF_RESOURCES /\
-    svc_lookup w' k = RHandle (Some k) /\ w_changes w' = w_changes w.
-Proof.
-  exists true, true, q_tight, [ev0 (OWrite 0 1 0)], 1000000000, 1, 2, 0.
-  vm_compute. repeat split.
-Qed.
 
 (* the writer never holds more than its limits allow, whatever happens *)
 Theorem C28_write_out_of_resources_limits_never_exceeded :
@@ -174,9 +151,8 @@ Proof. exact ent_write_expired_recorded_not_stored. Qed.
 Example C28_nonvacuous :
   let evs := [ev0 (ORegister 1 0); ev0 (OWrite 0 2 0); ev0 (OUnregister 3 0)] in
   let w := fst (run (init true true q_plain) evs) in
-  let g := c28_ghost true (mkG true [] [] []) (combine evs (snd (run (init true true q_plain) evs))) in
+  let g := c28_ghost true (mkG true [] None) (combine evs (snd (run (init true true q_plain) evs))) in
   g_en g = true /\ mem 1 (g_reg g) = true /\ mem 2 (g_reg g) = true /\ mem 3 (g_reg g) = false /\
-  g_st1 g = [] /\ g_st2 g = [] /\
   svc_lookup w 1 = RHandle (Some 1) /\ svc_lookup w 3 = RHandle None /\
   snd (svc_dispose w 3 0) = RErr E_BAD_PARAMETER /\
   snd (svc_register (fst (run (init false true q_plain) [])) 1 0) = RErr E_ILLEGAL_OPERATION /\
@@ -188,16 +164,15 @@ Proof. vm_compute. repeat split. Qed.
 Print Assumptions C28_register_idempotent.
 Print Assumptions C28_register_returns_same_handle_forever.
 Print Assumptions C28_lookup_iff_registered.
-Print Assumptions C28_lookup_after_unregister_refuted.
 Print Assumptions C28_unknown_instance_bad_parameter.
+Print Assumptions C28_unregister_then_unknown.
 Print Assumptions C28_keyless_illegal_operation.
 Print Assumptions C28_not_enabled_everywhere.
 Print Assumptions C28_enabled_iff_enable_called.
-Print Assumptions C28_contract_outside_known_classes.
-Print Assumptions C28_model_case_accepted_or_known.
+Print Assumptions C28_contract_for_all_runs.
+Print Assumptions C28_model_case_accepted.
 Print Assumptions C28_write_out_of_resources_iff_limit_reached.
 Print Assumptions C28_write_out_of_resources_stores_no_sample.
 Print Assumptions C28_write_out_of_resources_stores_nothing.
-Print Assumptions C28_write_out_of_resources_registers_instance_refuted.
 Print Assumptions C28_write_out_of_resources_limits_never_exceeded.
 Print Assumptions C28_write_expired_sample_recorded_not_stored.
